@@ -16,7 +16,6 @@ call can mutate is decided by performing it in plain Python on a copy.
 """
 import collections
 import inspect
-import itertools
 
 from hypothesis import strategies as st
 
@@ -28,7 +27,7 @@ LEVEL = "exploration"
 RULE = (
     "method table: every name in dir(list), dir(dict), dir(set), dir(collections.deque) of the running interpreter "
     "(public and dunder) x 24 argument shapes (none, new/existing element or key, key+value, index, index+value, "
-    "list/str/dict/set/deque/pairs arguments held in the context, keyword arguments) x 19 routes (dot, subscript, "
+    "list/str/dict/set/deque/pairs arguments held in the context, keyword arguments) x 18 routes (dot, subscript, "
     "computed name, set/with alias, attr filter, map(attribute)/map('attr')/dotted path, format field and index "
     "lookups, macro argument, loop variable, list/namespace storage, default filter, do statement, call through a "
     "stored alias of an alias) enumerated completely in sync and async mode, with the container reached directly, "
@@ -43,7 +42,7 @@ ASSUMPTIONS = [
     "only objects of the exact builtin types list, dict, set, collections.deque (and tuples / plain objects holding them) are placed in the context",
     "deep equality = same types, same order for list/deque/dict items, same deque maxlen, == for scalars",
     "a method call that raises in plain Python may raise the same exception class in the template",
-    "filters applied with arbitrary arguments may raise ordinary exceptions (TemplateError, TypeError, ValueError, LookupError, AttributeError, ArithmeticError); the data must still be unchanged",
+    "filters applied with arbitrary arguments may raise ordinary exceptions (TemplateError, TypeError, ValueError, LookupError, AttributeError, ArithmeticError, and the AssertionError truncate uses for argument validation); the data must still be unchanged",
 ]
 EXHAUSTIVE_NOTE = "method names x argument shapes x routes x {sync, async} and filter x value x single-argument variations are enumerated completely in every tier"
 
